@@ -17,7 +17,7 @@ def events(ctx):
         for _ in range(ctx.q(5000, 300000)):
             cfg = rnd_cfg(rng)
             over = rng.random() < 0.06
-            yield record("pdu.rt", {"kind": k, "cfg": cfg, "p": rnd_params(rng, k, cfg["large"], over),
+            yield record("pdu.rt", {"kind": k, "cfg": cfg, "p": rnd_params(rng, k, cfg["large"], over), **({"via": "setter"} if (not over and rng.random() < 0.2) else {}),
                                     "sfx": [] if rng.random() < 0.75 else [rng.randrange(256) for _ in range(rng.randrange(1, 6))]})
 
 
